@@ -15,6 +15,7 @@ from mc.runner import Result
 
 PROPERTY = "C02"
 LEVEL = "model_checking"
+TECHNIQUE = "bounded exhaustive enumeration of labels x chunkings x plans (explicit-state, real graph build+compute per state) against eager result and NumPy model"
 ENGINE = "E1"
 RULE = (
     "state = (reduction, dtype, engine, label tuple over {0,1,2,NaN}^n, chunking = composition of n, batch blocks, "
